@@ -456,3 +456,31 @@ Proof.
   - intros d dv Hdef Hdv. rewrite (dec_fields_default _ _ kv fs r E Hnd i fd d dv Hn Hdef Hdv). reflexivity.
   - intros Hdef. rewrite (dec_fields_no_default _ _ kv fs r E Hnd i fd Hn Hdef). reflexivity.
 Qed.
+
+(** *** introduction rules for [typedn], one level each (the height stays a variable: unfolding [typedn] at a literal
+    height is exponential in the height) *)
+Lemma ty_null n e : typedn (S n) e SNull ANull. Proof. exact I. Qed.
+Lemma ty_bool n e b : typedn (S n) e SBool (ABool b). Proof. exact I. Qed.
+Lemma ty_int n e z : in_int32 z -> typedn (S n) e SInt (AInt z). Proof. intros H; exact H. Qed.
+Lemma ty_long n e z : in_int64 z -> typedn (S n) e SLong (AInt z). Proof. intros H; exact H. Qed.
+Lemma ty_float n e b : 0 <= b < 2 ^ 32 -> typedn (S n) e SFloat (AFloat b). Proof. intros H; exact H. Qed.
+Lemma ty_double n e b : 0 <= b < 2 ^ 64 -> typedn (S n) e SDouble (ADouble b). Proof. intros H; exact H. Qed.
+Lemma ty_bytes n e b : bytes_ok b -> typedn (S n) e SBytes (ABytes b). Proof. intros H; exact H. Qed.
+Lemma ty_string n e b : key_ok b -> typedn (S n) e SString (AString b). Proof. intros H; exact H. Qed.
+Lemma ty_fixed n e nm al sz b : len b = sz -> bytes_ok b -> typedn (S n) e (SFixed nm al sz) (AFixed b).
+Proof. intros H1 H2; split; assumption. Qed.
+Lemma ty_enum n e nm al syms d i : 0 <= i < len syms -> i < 2 ^ 63 -> typedn (S n) e (SEnum nm al syms d) (AEnum i).
+Proof. intros H1 H2; split; assumption. Qed.
+Lemma ty_array n e s l : len l < 2 ^ 63 -> Forall (typedn n e s) l -> typedn (S n) e (SArray s) (AArray l).
+Proof. intros H1 H2; split; assumption. Qed.
+Lemma ty_map n e s l : len l < 2 ^ 63 -> Forall (fun kv => key_ok (fst kv) /\ typedn n e s (snd kv)) l -> typedn (S n) e (SMap s) (AMap l).
+Proof. intros H1 H2; split; assumption. Qed.
+Lemma ty_union n e bs i s a : i < 2 ^ 63 -> nthZ bs i = Some s -> typedn n e s a -> typedn (S n) e (SUnion bs) (AUnion i a).
+Proof. intros H1 H2 H3; split; [exact H1|]. exists s. split; assumption. Qed.
+Lemma ty_record n e nm al fs l : Forall2 (fun f a => typedn n e (ftype f) a) fs l -> typedn (S n) e (SRecord nm al fs) (ARecord l).
+Proof. intros H; exact H. Qed.
+Lemma ty_ref n e nm s a : lookup e nm = Some s -> typedn n e s a -> typedn (S n) e (SRef nm) a.
+Proof. intros H1 H2. apply typedn_ref. exists s. split; assumption. Qed.
+Lemma ty_annot n e lt s a : typedn n e s a -> typedn (S n) e (SAnnot lt s) a.
+Proof. intros H. apply typedn_annot. exact H. Qed.
+
